@@ -226,7 +226,7 @@ def run(rep, tier, seed):
         hres = fut.result()
     rep.notes.append("batch timings: %s (members=%d, parsers=%d)" % (bt.timings, len(bt.members), len(items)))
     n_cmp = n_ok = n_tokens = n_vec_items = n_none = n_rn = 0
-    n_gen_rej = n_rustc_rej = 0
+    n_gen_rej = n_rustc_rej = n_seq_cmp = 0
     by_cfg, shapes, samples = {}, {}, []
     bool_plain = bool_dropped = 0
     findings = {}
@@ -257,11 +257,32 @@ def run(rep, tier, seed):
             atext = open(apath, errors="replace").read() if apath else ""
             vec_kinds = set(re.findall(r"pub type (\w+) = Vec<", atext))
             rrv = right_recursive_vecs(d, vec_kinds)
-            results = {}
+            results, seqres = {}, {}
             for l in it.output:
                 if l.startswith("RESULT "):
                     w = l.split(" ")
-                    results[int(w[2])] = w[3:]
+                    (seqres if w[1] == "LRS" else results)[int(w[2])] = w[3:]
+            # one parser instance reused over the whole input list (after a failing parse each time) answers as fresh
+            # parsers do: the value returned for an input holds the tokens of THAT input
+            hang = any(rr and rr[0] in ("TIMEOUT", "CRASH", "PANIC") for rr in results.values())
+            if algo == "LR" and not hang:
+                for i, inp in enumerate(g.inputs):
+                    a, b = results.get(i), seqres.get(i)
+                    if seqres.get(0, [""])[0] == "PANIC":
+                        finding("reused-parser-panics", "a parser instance that parsed a failing input before panics",
+                                dict(base, input=inp, panic=unhx(seqres[0][1]).decode(errors="replace")
+                                     if len(seqres[0]) > 1 else ""))
+                        break
+                    if a is None or b is None:
+                        continue
+                    n_seq_cmp += 1
+                    if a != b:
+                        finding("reused-parser-differs", "a parser instance that parsed other (failing) inputs before "
+                                "returns a different value for this input than a fresh parser",
+                                dict(base, input=inp, previous_input=inp + " \x01",
+                                     fresh=unhx(a[2]).decode(errors="replace") if a[0] == "AST" else a[0],
+                                     reused=unhx(b[2]).decode(errors="replace") if b[0] == "AST" else b[0]))
+                        break
             by_cfg["%s/loc%d" % (algo, loc)] = by_cfg.get("%s/loc%d" % (algo, loc), 0) + 1
             shapes[g.shape] = shapes.get(g.shape, 0) + 1
             for i, inp in enumerate(g.inputs):
@@ -387,7 +408,7 @@ def run(rep, tier, seed):
         trusted_base=TRUSTED_BASE[2:3] + ["gen/c10.py: extraction of string literals from the Debug rendering "
                                          "(regex), expectation computed from the generic tree and the hook dump "
                                          "(has_content flags)", "rustc/cargo"],
-        programs=sum(by_cfg.values()), evaluations=n_cmp, distinct_nontrivial=n_ok, tokens_compared=n_tokens,
+        programs=sum(by_cfg.values()), evaluations=n_cmp, distinct_nontrivial=n_ok, tokens_compared=n_tokens, reused_parser_results_compared=n_seq_cmp,
         values_with_vectors=n_vec_items, none_compared=n_none, trees_with_right_nulled_reductions=n_rn,
         bool_assignment_as_text=bool_plain, bool_assignment_dropped=bool_dropped,
         parsers_by_config=by_cfg, grammars=len(gs), rejected_by_generator=n_gen_rej, rejected_by_rustc=n_rustc_rej,
